@@ -242,10 +242,123 @@ class Case:
         self.live = live          # the actual Python objects passed (for in-state replays)
 
 
+# ---- calling conventions ---------------------------------------------------------------------
+# The documented signatures of the public functions (parameter names in documented order, and
+# which value is the documented default), written down from the documentation of the pinned
+# version — NOT read from the code under test.  Every call the generators make through `call` /
+# `invoke` is re-spelled: a random prefix of the arguments stays positional, the rest is passed
+# by keyword, and an argument that equals its documented default is sometimes left out.  All
+# spellings mean the same call; a renamed keyword, two parameters swapped in a signature or a
+# changed default then shows as a difference from the model.
+_REQ = object()
+_D_CIVIL, _D_UTC, _D_RISING = "CIVIL", "UTC", "RISING"
+_EVT = [("observer", _REQ), ("date", None), ("tzinfo", _D_UTC)]
+_DIRP = [("observer", _REQ), ("date", None), ("direction", _D_RISING), ("tzinfo", _D_UTC)]
+DOCUMENTED = {
+    "astral.sun.dawn": [("observer", _REQ), ("date", None), ("depression", _D_CIVIL), ("tzinfo", _D_UTC)],
+    "astral.sun.dusk": [("observer", _REQ), ("date", None), ("depression", _D_CIVIL), ("tzinfo", _D_UTC)],
+    "astral.sun.sunrise": _EVT, "astral.sun.sunset": _EVT, "astral.sun.noon": _EVT,
+    "astral.sun.midnight": _EVT, "astral.sun.daylight": _EVT, "astral.sun.night": _EVT,
+    "astral.sun.twilight": _DIRP, "astral.sun.golden_hour": _DIRP, "astral.sun.blue_hour": _DIRP,
+    "astral.sun.rahukaalam": [("observer", _REQ), ("date", None), ("daytime", True), ("tzinfo", _D_UTC)],
+    "astral.sun.time_at_elevation": [("observer", _REQ), ("elevation", _REQ), ("date", None),
+                                     ("direction", _D_RISING), ("tzinfo", _D_UTC), ("with_refraction", True)],
+    "astral.sun.sun": [("observer", _REQ), ("date", None), ("dawn_dusk_depression", _D_CIVIL), ("tzinfo", _D_UTC)],
+    "astral.sun.zenith": [("observer", _REQ), ("dateandtime", None), ("with_refraction", True)],
+    "astral.sun.elevation": [("observer", _REQ), ("dateandtime", None), ("with_refraction", True)],
+    "astral.sun.azimuth": [("observer", _REQ), ("dateandtime", None)],
+    "astral.sun.zenith_and_azimuth": [("observer", _REQ), ("dateandtime", _REQ), ("with_refraction", True)],
+    "astral.sun.time_of_transit": [("observer", _REQ), ("date", _REQ), ("zenith", _REQ), ("direction", _REQ),
+                                   ("with_refraction", True)],
+    "astral.moon.moonrise": _EVT, "astral.moon.moonset": _EVT,
+    "astral.moon.azimuth": [("observer", _REQ), ("at", None)],
+    "astral.moon.elevation": [("observer", _REQ), ("at", None)],
+    "astral.moon.zenith": [("observer", _REQ), ("at", None)],
+    "astral.moon.phase": [("date", None)],
+    "astral.geocoder.lookup": [("name", _REQ), ("db", _REQ)],
+    "astral.geocoder.add_locations": [("locations", _REQ), ("db", _REQ)],
+    "astral.geocoder.group": [("region", _REQ), ("db", _REQ)],
+    "astral.geocoder.lookup_in_group": [("location", _REQ), ("group", _REQ)],
+    "astral.geocoder.all_locations": [("db", _REQ)],
+    "astral.dms_to_float": [("dms", _REQ), ("limit", None)],
+    "astral.Observer": [("latitude", _REQ), ("longitude", _REQ), ("elevation", _REQ)],
+    "astral.LocationInfo": [("name", _REQ), ("region", _REQ), ("timezone", _REQ), ("latitude", _REQ),
+                            ("longitude", _REQ)],
+    "astral.julian.julianday": [("at", _REQ), ("calendar", "GREGORIAN")],
+    "astral.julian.julianday_modified": [("at", _REQ)],
+    "astral.julian.julianday_to_datetime": [("jd", _REQ)],
+}
+_CONV = {"rng": None, "stats": {"positional": 0, "keyword": 0, "default_omitted": 0}}
+
+
+def set_convention_rng(rng):
+    _CONV["rng"] = rng
+
+
+def _is_default(v, dflt):
+    import datetime as _dt
+    if dflt is None:
+        return v is None
+    if dflt is True:
+        return v is True
+    if dflt == _D_UTC:
+        return v is _dt.timezone.utc
+    try:
+        import astral as _a
+        if dflt == _D_CIVIL:
+            return v is _a.Depression.CIVIL
+        if dflt == _D_RISING:
+            return v is _a.SunDirection.RISING
+        if dflt == "GREGORIAN":
+            import astral.julian as _j
+            return v is _j.Calendar.GREGORIAN
+    except Exception:  # noqa: BLE001
+        pass
+    return False
+
+
+def respell(f, a, k):
+    """another spelling of the same documented call (see DOCUMENTED)"""
+    rng = _CONV["rng"]
+    key = "%s.%s" % (getattr(f, "__module__", None), getattr(f, "__name__", None))
+    sig = DOCUMENTED.get(key)
+    if rng is None or sig is None or len(a) > len(sig) or any(n not in [x for x, _ in sig] for n in k):
+        return a, k
+    names = [n for n, _ in sig]
+    bound = dict(zip(names, a))
+    if any(n in bound for n in k):
+        return a, k
+    bound.update(k)
+    npos = rng.randint(1 if names[0] == "observer" and "observer" in bound else 0, len(a)) \
+        if rng.random() < 0.7 else len(a)
+    # positional prefix must be contiguous in documented order
+    pos = []
+    for n in names[:npos]:
+        if n not in bound:
+            break
+        pos.append(bound.pop(n))
+    kw = {}
+    for n, dflt in sig:
+        if n in bound:
+            if dflt is not _REQ and _is_default(bound[n], dflt) and rng.random() < 0.5:
+                _CONV["stats"]["default_omitted"] += 1
+                continue
+            kw[n] = bound[n]
+    _CONV["stats"]["positional"] += len(pos)
+    _CONV["stats"]["keyword"] += len(kw)
+    return tuple(pos), kw
+
+
+def invoke(f, *a, **k):
+    """call the implementation in one of the equivalent documented spellings (raises what it raises)"""
+    a2, k2 = respell(f, a, k)
+    return f(*a2, **k2)
+
+
 def call(f, *a, **k):
     """Run the implementation; return ('ok', value) or ('err', exception)."""
     try:
-        return "ok", f(*a, **k)
+        return "ok", invoke(f, *a, **k)
     except Exception as exc:  # noqa: BLE001 - every escape is data here
         return "err", exc
 
